@@ -6,12 +6,13 @@
   OBLIGATIONS: C01_roundtrip C01_compose C01_two_grids_roundtrip C01_two_grids_compose
     C01_two_grids_same C01_vectors_linear_part C01_vectors_closed_form C01_two_grids_vectors
     C01_anchor_origin C01_anchor_center C01_anchor_corners C01_anchor_cube
-    C01_coords_count C01_coords_values C01_coords_range C01_sample_identity C01_rounding_bound
+    C01_coords_count C01_coords_values C01_coords_range C01_sample_identity C01_rounding_bound C01_cube_of_grid
 -/
 import Deepali.Proofs.GridMaps
 import Deepali.Proofs.Rounding
 import Deepali.Proofs.Examples
 import Deepali.Proofs.FlowAffine
+import Deepali.Proofs.CubeMaps
 import Mathlib.Tactic.Linarith
 import Mathlib.Tactic.NormNum
 import Mathlib.Data.Rat.Floor
@@ -222,6 +223,15 @@ theorem C01_sample_identity (ac : Bool) (pad : Padding) (n : Fin d → Nat) (h1 
   cases pad <;> simp only [gridSampleLin, hx, hcl] <;> rw [interpLin_at_index] <;>
     simp only [extZero, Nat.cast_zero] <;>
     rw [if_pos (show ∀ i, 0 ≤ idx i ∧ idx i < (n i : Int) from hb)]
+
+/-- the `Cube` obtained from a grid (`Grid.cube()`, `Cube.from_grid(g, align_corners)`) maps its cube
+    coordinates to the same world points as the grid's CUBE resp. CUBE_CORNERS axes: the two classes
+    describe one normalised coordinate system. -/
+theorem C01_cube_of_grid (g : Grid d K) {n : Fin d → Nat} (hv : g.Valid) (hn : g.HasSize n)
+    (h2 : ∀ i, 2 ≤ n i) (hpos : ∀ i, 0 < g.size i) (ac : Bool) (x : Vec d K) :
+    (match (Cube.ofGrid g (some ac)).transform .cube .world none false with | .ok h => h.apply x | .errValue => x)
+      = g.applyTransform (Axes.fromAlignCorners ac) .world false x :=
+  cube_of_grid_to_world g hv hn h2 hpos ac x
 
 /-! ### non-vacuity: a concrete rotated anisotropic grid meets every hypothesis used above -/
 
